@@ -492,6 +492,39 @@ func checkTransient(w *World, x *vstat.Ctx) error {
 // write the spec's history is extended and Order, Consistency, Transition and
 // the blocking rule are evaluated; at quiescence every transaction must be
 // terminal and one more reconcile of everything must write nothing.
+const fRbRefusedCrash = "F-v3-crash-turns-refused-rollback-into-complete"
+
+// refusedRollbackCrashShape: the device is asked to refuse one request with a HARD error (the generator
+// injects transient codes only), the process is cut a number of effects later, and a rollback is requested
+// after both - the shape of finding F-v3-crash-turns-refused-rollback-into-complete (directed seeds only).
+func refusedRollbackCrashShape(c C20Case) bool {
+	hard, cut := false, false
+	for _, a := range c.Actions {
+		switch a.Kind {
+		case "fault":
+			if a.Code != 14 && a.Code != 4 && a.Code != 1 {
+				hard = true
+			}
+		case "crash-at":
+			cut = cut || hard
+		case "rollback":
+			if hard && cut {
+				return true
+			}
+		}
+	}
+	return false
+}
+
+func runC20WithDirected(c C20Case, x *vstat.Ctx) error {
+	err := runC20(c, x)
+	if err != nil && refusedRollbackCrashShape(c) && strings.HasPrefix(err.Error(), "Transition (AtomicStatusChange)") && vstat.IsKnown(prop, fRbRefusedCrash) {
+		x.Known(fRbRefusedCrash, "the device refuses a rollback's own Set with a hard error, applyRollback writes the configuration (Applied.Ordinal := the rollback's) and the process ends before it writes Rollback.Apply = FAILED; after the restart the rollback is reported COMPLETE: "+firstLine(err.Error()))
+		return nil
+	}
+	return err
+}
+
 func TestC20_OrderAndConsistency(t *testing.T) {
-	vstat.Run(t, prop, genC20(switches()), runC20)
+	vstat.Run(t, prop, genC20(switches()), runC20WithDirected)
 }
